@@ -25,6 +25,7 @@
 #define VF_UNUSED __attribute__((unused))
 #endif
 
+#define VF_NOLN (-2147483647 - 1)
 #define VF_MAXSRC 64
 #define VF_MAXSTR 64
 #define VF_MAXSLOT 256
@@ -202,7 +203,7 @@ static VF_UNUSED void vf_T(struct vf_ctx *c, int rule, const char *text, int len
 	vf_puts(c, " ");
 	vf_putl(c, sc);
 	vf_puts(c, " ");
-	if (lineno < 0)
+	if (lineno == VF_NOLN)
 		vf_puts(c, "-");
 	else
 		vf_putl(c, lineno);
@@ -221,7 +222,7 @@ static VF_UNUSED void vf_E(struct vf_ctx *c, int sc, int lineno)
 	vf_puts(c, "E ");
 	vf_putl(c, sc);
 	vf_puts(c, " ");
-	if (lineno < 0)
+	if (lineno == VF_NOLN)
 		vf_puts(c, "-");
 	else
 		vf_putl(c, lineno);
